@@ -218,11 +218,19 @@ def nonneg_integral(pf):
 
 
 def container_guarded(site, subject, slot):
+    # a local bound once to the operand (`vector = expr.vector`) stands for it in the guards
+    aliases = [nm for nm, vals in _BOOL_ENV.items() if len([v for v in vals if isinstance(v, ast.AST)]) == 1 and len(vals) == 1 and src(vals[0]) == f"{subject}.{slot}"]
+
+    def norm(a):
+        for nm in aliases:
+            a = re.sub(rf"(?<![\w.]){re.escape(nm)}(?![\w])", f"{subject}.{slot}", a)
+        return a
+
     def pred(a):
-        return a in (f"isinstance({subject}.{slot}, VectorVariable)", f"hasattr({subject}.{slot}, '_variables')", f"isinstance({subject}.{slot}, MatrixVariable)")
+        return norm(a) in (f"isinstance({subject}.{slot}, VectorVariable)", f"hasattr({subject}.{slot}, '_variables')", f"isinstance({subject}.{slot}, MatrixVariable)")
 
     def not_expr(a):
-        return a in (f"hasattr({subject}.{slot}, '_expressions')", f"isinstance({subject}.{slot}, VectorExpression)", f"isinstance({subject}.{slot}, MatrixExpression)")
+        return norm(a) in (f"hasattr({subject}.{slot}, '_expressions')", f"isinstance({subject}.{slot}, VectorExpression)", f"isinstance({subject}.{slot}, MatrixExpression)")
 
     # guarded positively as a variable container, or every expression-holding kind is excluded on this path
     return implied(site.pf, pred, True) or implied(site.pf, not_expr, False)
@@ -678,6 +686,58 @@ def _verdict_is_conjunction(prog, rep, lin):
         rep.ob("R04.4", "Problem._is_linear_problem", True, "True only after the objective and every constraint passed is_linear (4 scenarios walked)", loc=lin.loc, detail="conjunction")
 
 
+def _threshold_form(prog, fn, bound, depth=0, binding=None):
+    """(True | False | None, why): does the predicate return `D is not None and D <= bound` with D the degree of its
+    argument (Expression.degree / compute_degree)?  One-expression module helpers are followed with their arguments
+    bound; False only for a recognised comparison with another bound or a missing None test."""
+    binding = binding or {}
+    asg = local_assignments(fn.node)
+    rets = [n.value for n in walk_local(fn.node, include_self=False) if isinstance(n, ast.Return) and n.value is not None]
+    if len(rets) != 1:
+        return None, "more than one return"
+    r = rets[0]
+
+    def num(e):
+        if isinstance(e, ast.Constant) and isinstance(e.value, (int, float)) and not isinstance(e.value, bool):
+            return e.value
+        if isinstance(e, ast.Name) and e.id in binding:
+            return num(binding[e.id])
+        return None
+
+    def is_degree(e):
+        if isinstance(e, ast.Name):
+            vals = [v for v in asg.get(e.id, []) if isinstance(v, ast.AST)]
+            return len(vals) == 1 and is_degree(vals[0])
+        if isinstance(e, ast.Attribute) and e.attr == "degree":
+            return True
+        return isinstance(e, ast.Call) and (dotted(e.func) or "").split(".")[-1] in ("compute_degree",)
+
+    if isinstance(r, ast.Call) and isinstance(r.func, ast.Name) and depth < 2:
+        g = prog.functions.get(f"{fn.module.name}:{r.func.id}")
+        if g is not None and not r.keywords and len(r.args) == len(g.node.args.args):
+            b2 = {p_.arg: (binding.get(a_.id, a_) if isinstance(a_, ast.Name) else a_) for p_, a_ in zip(g.node.args.args, r.args)}
+            return _threshold_form(prog, g, bound, depth + 1, b2)
+        return None, f"returns {src(r)[:40]}"
+    if isinstance(r, ast.BoolOp) and isinstance(r.op, ast.And) and len(r.values) == 2:
+        a_, b_ = r.values
+        none_ok = isinstance(a_, ast.Compare) and isinstance(a_.ops[0], ast.IsNot) and isinstance(a_.comparators[0], ast.Constant) and a_.comparators[0].value is None and is_degree(a_.left)
+        if isinstance(b_, ast.Compare) and len(b_.ops) == 1 and is_degree(b_.left):
+            k = num(b_.comparators[0])
+            if k is None:
+                return None, f"bound `{src(b_.comparators[0])}` not a number"
+            eff = k if isinstance(b_.ops[0], ast.LtE) else (k - 1 if isinstance(b_.ops[0], ast.Lt) else None)
+            if eff is None:
+                return None, f"comparison `{src(b_)}`"
+            if not none_ok:
+                return None, f"first conjunct `{src(a_)[:40]}`"
+            if eff == bound:
+                return True, ""
+            return False, f"accepts degree <= {eff} (`{src(b_)}` with bound {k}), not <= {bound}"
+    if isinstance(r, ast.Compare) and len(r.ops) == 1 and is_degree(r.left) and num(r.comparators[0]) is not None and isinstance(r.ops[0], (ast.LtE, ast.Lt)):
+        return None, f"`{src(r)}` has no None test (non-polynomial degree is None)"
+    return None, f"returns `{src(r)[:50]}`"
+
+
 def check(prog, rep):
     for q in ANALYSERS:
         rep.section(check_analyser, prog, rep, prog.func(q))
@@ -688,19 +748,44 @@ def check(prog, rep):
         if fn is None:
             raise AnalysisError(f"{owner} not found")
         bound = 2 if "quadratic" in owner else 1
-        rets = [n.value for n in walk_local(fn.node) if isinstance(n, ast.Return)]
-        ok = any(isinstance(r, ast.BoolOp) and isinstance(r.op, ast.And) and "is not None" in src(r.values[0]) and re.fullmatch(rf"\w+ <= {bound}", src(r.values[1])) for r in rets)
-        rep.pin("degree consumers", "R04.4", owner, ok, f"<=> degree is not None and degree <= {bound}" if ok else f"{owner} is not `deg is not None and deg <= {bound}`", loc=fn.loc, detail="threshold")
+        verdict, why = _threshold_form(prog, fn, bound)
+        if verdict is None:
+            rep.undecided(f"{owner}: {why}")
+            continue
+        rep.ob("R04.4", owner, verdict, f"<=> degree is not None and degree <= {bound}" if verdict else f"{owner} {why}", loc=fn.loc, detail="threshold", robust=True)
     deg = E.methods.get("degree")
     # sentinel: the cache holds -1 for "None"; written as `X if X is not None else -1`, read back as
     # `None if C == -1 else C` where C is the cached value (self._degree, or a local holding it)
     dass = local_assignments(deg.node)
 
-    def is_cache_read(e):
+    def _mod_const(name):
+        """numeric value of a module-level constant of the module that defines Expression.degree"""
+        for st in deg.module.tree.body:
+            tg = st.targets[0] if isinstance(st, ast.Assign) and len(st.targets) == 1 else st.target if isinstance(st, ast.AnnAssign) else None
+            if isinstance(tg, ast.Name) and tg.id == name and getattr(st, "value", None) is not None:
+                try:
+                    v_ = ast.literal_eval(st.value)
+                    return v_ if isinstance(v_, (int, float)) else None
+                except Exception:
+                    return None
+        return None
+
+    def _as_const(r):
+        if isinstance(r, ast.UnaryOp) and isinstance(r.op, ast.USub) and isinstance(r.operand, ast.Constant) and isinstance(r.operand.value, (int, float)):
+            return ast.Constant(value=-r.operand.value)
+        if isinstance(r, ast.Name) and r.id not in dass and _mod_const(r.id) is not None:
+            return ast.Constant(value=_mod_const(r.id))
+        return r
+
+    def is_cache_read(e, depth=0):
         e2 = e
         if isinstance(e2, ast.Name):
             vals = [v for v in dass.get(e2.id, []) if isinstance(v, ast.AST)]
             return len(vals) == 1 and is_cache_read(vals[0])
+        if isinstance(e2, ast.Call) and isinstance(e2.func, ast.Attribute) and dotted(e2.func.value) == "self" and not e2.args and e2.func.attr in E.methods and depth < 2:
+            # accessor of the class: `def _stored(self): return getattr(self, "_degree", None)`
+            hb = [x for x in E.methods[e2.func.attr].node.body if not (isinstance(x, ast.Expr) and isinstance(x.value, ast.Constant))]
+            return len(hb) == 1 and isinstance(hb[0], ast.Return) and hb[0].value is not None and is_cache_read(hb[0].value, depth + 1)
         if isinstance(e2, ast.Attribute):
             return src(e2) == "self._degree"
         if isinstance(e2, ast.Call) and dotted(e2.func) == "getattr" and len(e2.args) >= 2:
@@ -719,9 +804,7 @@ def check(prog, rep):
             if isinstance(t, ast.Call) and dotted(t.func) == "hasattr" and len(t.args) == 2 and src(t.args[0]) == "self" and isinstance(t.args[1], ast.Constant) and t.args[1].value == "_degree":
                 return True if cache_state != "empty" else None
             if isinstance(t, ast.Compare) and len(t.ops) == 1:
-                l, r, op = t.left, t.comparators[0], t.ops[0]
-                if isinstance(r, ast.UnaryOp) and isinstance(r.op, ast.USub) and isinstance(r.operand, ast.Constant) and isinstance(r.operand.value, (int, float)):
-                    r = ast.Constant(value=-r.operand.value)
+                l, r, op = t.left, _as_const(t.comparators[0]), t.ops[0]
                 if is_read(l) and isinstance(r, ast.Constant):
                     if r.value is None:
                         v = cache_state == "empty"
@@ -743,7 +826,7 @@ def check(prog, rep):
                 if t_ is None:
                     return src(e)
                 return pick(e.body if t_ else e.orelse, state)
-            return "<cache>" if is_read(e) else ("<result>" if isinstance(e, ast.Name) and e.id in state["result_names"] else src(e))
+            return "<cache>" if is_read(e) else ("<result>" if isinstance(e, ast.Name) and e.id in state["result_names"] else src(_as_const(e)))
 
         def on_stmt(st, state):
             if isinstance(st, ast.Assign) and len(st.targets) == 1:
@@ -800,16 +883,96 @@ def check(prog, rep):
                                f"degree cache written as {src(v)[:40]}" if ok else
                                f"writes the per-node degree cache as `{src(v)[:60]}` outside the degree analysis: cached values use -1 for 'non-polynomial', so e.g. max() over them turns sin(x) + x into degree 1",
                                loc=f"{f.module.rel}:{n.lineno}", detail=f"degree-cache-writer:{src(v)[:30]}")
-    for f in prog.functions.values():
-        for n in walk_local(f.node):
-            if isinstance(n, ast.Attribute) and n.attr == "_degree" and isinstance(n.ctx, ast.Load) and f is not deg:
-                rep.ob("R04.4", f"{f.qual.split(':')[1]}", False, f"reads the raw per-node degree cache ({src(n)}) outside Expression.degree: the value is in sentinel encoding (-1 = non-polynomial, None = unknown), not a degree", loc=f"{f.module.rel}:{n.lineno}", detail="raw-degree-cache-read")
+    # raw reads of the per-node cache outside Expression.degree.  Reading is not the defect; USING the raw value as a degree
+    # is: -1 means non-polynomial, so max() / arithmetic / ordering on it under-reports.  Each read is classified by what
+    # is done with the value (through one local and through accessor methods that just hand it out).
+    from ..astutil import parent as _parent
+    sentinel_names = {nm for nm in {x.id for x in ast.walk(deg.module.tree) if isinstance(x, ast.Name)} if _mod_const(nm) == -1}
+
+    def is_raw(n):
+        if isinstance(n, ast.Attribute) and n.attr == "_degree" and isinstance(n.ctx, ast.Load):
+            return True
+        return isinstance(n, ast.Call) and dotted(n.func) == "getattr" and len(n.args) >= 2 and isinstance(n.args[1], ast.Constant) and n.args[1].value == "_degree"
+
+    def use_of(node, f, depth=0):
+        """'benign' | 'handed-out' | ('arith', text) | 'unknown' for one occurrence of the raw value"""
+        child, p_ = node, _parent(node)
+        while p_ is not None and not isinstance(p_, ast.stmt):
+            if isinstance(p_, ast.Compare) and len(p_.ops) == 1:
+                other = p_.comparators[0] if p_.left is child else p_.left
+                oc = other
+                if isinstance(oc, ast.UnaryOp) and isinstance(oc.op, ast.USub) and isinstance(oc.operand, ast.Constant):
+                    oc = ast.Constant(value=-oc.operand.value)
+                if isinstance(p_.ops[0], (ast.Is, ast.IsNot)) and isinstance(oc, ast.Constant) and oc.value is None:
+                    return "benign"
+                if isinstance(p_.ops[0], (ast.Eq, ast.NotEq)) and ((isinstance(oc, ast.Constant) and oc.value in (-1, None)) or (isinstance(oc, ast.Name) and oc.id in sentinel_names)):
+                    return "benign"
+                if isinstance(p_.ops[0], (ast.Lt, ast.LtE, ast.Gt, ast.GtE)):
+                    return ("arith", src(p_)[:60])
+                return "unknown"
+            if isinstance(p_, ast.BinOp):
+                return ("arith", src(p_)[:60])
+            if isinstance(p_, ast.Call) and child in p_.args and (dotted(p_.func) or "") in ("max", "min", "sum", "np.maximum", "np.max"):
+                return ("arith", src(p_)[:60])
+            if isinstance(p_, (ast.List, ast.Tuple, ast.ListComp, ast.GeneratorExp)) :
+                child, p_ = p_, _parent(p_)
+                continue
+            if isinstance(p_, ast.IfExp):
+                if p_.test is child:
+                    return "unknown"
+                child, p_ = p_, _parent(p_)
+                continue
+            if isinstance(p_, ast.Call) and child is p_.func:
+                return "unknown"
+            child, p_ = p_, _parent(p_)
+        if isinstance(p_, ast.Return):
+            return "handed-out"
+        if isinstance(p_, (ast.Assign, ast.AnnAssign)) and depth < 2:
+            tg = p_.targets[0] if isinstance(p_, ast.Assign) else p_.target
+            if isinstance(tg, ast.Name):
+                uses = [x for x in walk_local(f.node) if isinstance(x, ast.Name) and x.id == tg.id and isinstance(x.ctx, ast.Load)]
+                res = [use_of(x, f, depth + 1) for x in uses]
+                for r_ in res:
+                    if isinstance(r_, tuple):
+                        return r_
+                return "unknown" if "unknown" in res else ("handed-out" if "handed-out" in res else "benign")
+            if isinstance(tg, ast.Attribute) and tg.attr == "_degree":
+                return "benign"
+        if isinstance(p_, (ast.If, ast.While)) and child is p_.test:
+            return "unknown"
+        return "unknown"
+
+    accessors = set()
+    sites = []
     for f in prog.functions.values():
         if f is deg:
             continue
         for n in walk_local(f.node):
-            if isinstance(n, ast.Call) and dotted(n.func) in ("getattr", "hasattr") and len(n.args) >= 2 and isinstance(n.args[1], ast.Constant) and n.args[1].value == "_degree":
-                rep.ob("R04.4", f"{f.qual.split(':')[1]}", False, f"reads the raw per-node degree cache ({src(n)[:50]}) outside Expression.degree: the value is in sentinel encoding (-1 = non-polynomial), not a degree; used as one it turns sin(x) + x into degree 1", loc=f"{f.module.rel}:{n.lineno}", detail="raw-degree-cache-read")
+            if is_raw(n):
+                sites.append((f, n, src(n)[:40]))
+            elif isinstance(n, ast.Call) and dotted(n.func) == "hasattr" and len(n.args) >= 2 and isinstance(n.args[1], ast.Constant) and n.args[1].value == "_degree":
+                pass    # existence test only
+    for _round in range(2):
+        for f, n, what in list(sites):
+            if use_of(n, f) == "handed-out" and f.cls is not None and f.name not in accessors:
+                accessors.add(f.name)
+                for g in prog.functions.values():
+                    if g is deg:
+                        continue
+                    for c_ in walk_local(g.node):
+                        if isinstance(c_, ast.Call) and isinstance(c_.func, ast.Attribute) and c_.func.attr == f.name and not c_.args and sum(1 for k in prog.classes.values() if f.name in k.methods) == 1:
+                            sites.append((g, c_, src(c_)[:40]))
+    n_raw = 0
+    for f, n, what in sites:
+        u = use_of(n, f)
+        n_raw += 1
+        if isinstance(u, tuple):
+            rep.ob("R04.4", f"{f.qual.split(':')[1]}", False,
+                   f"uses the raw per-node degree cache ({what}) as a number in `{u[1]}` outside Expression.degree: the slot is in sentinel encoding (-1 = non-polynomial, None = not analysed), so sin(x) + x comes out as degree 1",
+                   loc=f"{f.module.rel}:{n.lineno}", detail="raw-degree-cache-read", robust=True)
+        elif u == "unknown":
+            rep.undecided(f"{f.qual.split(':')[1]}: reads the raw per-node degree cache ({what}); what is done with the value is not readable")
+    rep.ob("R04.4", "package", True, f"{n_raw} read(s) of the raw per-node degree cache outside Expression.degree classified", detail="raw-read-inventory", trivial=True)
     P = prog.cls("Problem")
     lin = P.methods.get("_is_linear_problem")
     if lin is None:
